@@ -231,7 +231,12 @@ bool File::copy(const String& src, const String& destination, bool failIfExists)
     if(fd == -1)
       return false;
     struct stat srcStat;
-    if(fstat(fd, &srcStat) == 0 && S_ISDIR(srcStat.st_mode))
+    if(fstat(fd, &srcStat) != 0)
+    {
+      ::close(fd);
+      return false;
+    }
+    if(S_ISDIR(srcStat.st_mode))
     {
       ::close(fd);
       errno = EISDIR;
@@ -241,6 +246,13 @@ bool File::copy(const String& src, const String& destination, bool failIfExists)
     if(size < 0 || lseek(fd, 0, SEEK_SET) < 0)
     {
       ::close(fd);
+      return false;
+    }
+    struct stat destStat;
+    if(!failIfExists && stat(destination, &destStat) == 0 && destStat.st_dev == srcStat.st_dev && destStat.st_ino == srcStat.st_ino)
+    { // source and destination are the same file: truncating the destination would destroy it
+      ::close(fd);
+      errno = EINVAL;
       return false;
     }
     bool created = true; // so that a failed copy does not leave a new (partial) file behind
